@@ -4,6 +4,7 @@ import (
 	"encoding/json"
 	"fmt"
 	"math"
+	"strings"
 	"time"
 
 	"verif/bt"
@@ -181,7 +182,8 @@ func runC01(c *fw.Ctx) {
 	tcore := []bt.Mut{mset("f", "a", 1000, "x"), mset("f", "a", 2000, "y"), mset("f", "b", 3000, ""), mset("g", "a", -1, "z"),
 		mdelcol("f", "a"), mdelcolr("f", "a", 1000, 2000), mdelfam("f"), {Kind: "delrow"}, mset("nofam", "a", 1000, "x")}
 	cat := c01Catalogue()
-	catKeys := []string{"a", "a\x00", "ab", "\xff"}
+	// (two long keys: 127 / 128 bytes is where a length prefix grows to two bytes, 300 is well beyond)
+	catKeys := []string{"a", "a\x00", "ab", "\xff", strings.Repeat("k", 127), strings.Repeat("k", 128), strings.Repeat("L", 300)}
 	for _, p := range plans {
 		p := p
 		var item int64
